@@ -27,6 +27,8 @@ Qed.
 Theorem stl_negate_eq t : gwfs t -> to_stl (PolyhedralSyntaxTermList_negate t) = stl_negate (to_stl t).
 Proof.
   intros Hwf. unfold PolyhedralSyntaxTermList_negate, stl_negate, to_stl. cbv zeta.
+  (* the negated dict is built item by item, by an explicit loop or by a dict comprehension: the same loop *)
+  try unfold dict_comp, for_items.
   cbn [gconst gfactors sconst sfactors]. f_equal.
   rewrite (for_list_fold (fun a p => dict_set a (fst p) (qneg (snd p)))).
   - rewrite (fold_set_map qneg (gfactors t) dict_empty Hwf). reflexivity.
